@@ -438,3 +438,65 @@ def rule_HT1(ctx, tier):
                 rr.fail("empty-field-forwarded:%s.%s" % (m, fl[2:]), "http::%s forwards a request whose `%s` may be empty" % (m, fl[2:]), where=h.span)
     rr.require_floor(30, "HT1 instances")
     return rr
+
+
+def rule_WT4(ctx, tier):
+    rr = RuleResult("WT4", "generated message (de)serialisers as compiled: every field is required when parsing; both directions use matching field adapters")
+    P = ctx.prog
+    # the public wire messages (client <-> tower); `teos::protos` holds the private admin API, which is out of C16's scope
+    msgs = [a for p, a in P.adts.items() if p.startswith("teos_common::protos::") and a["kind"] == "struct" and "::_::" not in p and a["variants"][0]["fields"]]
+    FLATTENED = {"teos_common::protos::AppointmentData": "its only field is the #[serde(flatten)]ed untagged oneof: the alternatives' own required fields discriminate"}
+    n = 0
+    for a in sorted(msgs, key=lambda x: x["path"]):
+        name = a["path"]
+        fields = [f["name"] for f in a["variants"][0]["fields"]]
+        de = [b for bid, b in P.bodies.items() if ("Deserialize<'de> for %s>" % name) in bid]
+        se = [b for bid, b in P.bodies.items() if ("Serialize for %s>" % name) in bid]
+        if not de:
+            continue   # not a wire message (no serde derive)
+        n += 1
+        req = set()
+        de_ad, se_ad = set(), set()
+        for b in de:
+            for bb, t in b.calls():
+                tgt = call_target(t) or ""
+                if tgt.endswith("missing_field"):
+                    for i in range(len(t["args"])):
+                        k = const_of(arg_origin(ctx, b, bb, i))
+                        if k and isinstance(k[0], str):
+                            req.add(k[0])
+                if tgt.endswith("::deserialize") and ("hex::" in tgt or "::ser::" in tgt):
+                    de_ad.add(tgt.rsplit("::", 1)[0])
+        for b in se:
+            for bb, t in b.calls():
+                tgt = call_target(t) or ""
+                if tgt.endswith("::serialize") and ("hex::" in tgt or "::ser::" in tgt):
+                    se_ad.add(tgt.rsplit("::", 1)[0])
+        # serde renames: compare against the serialised names when a rename is in force
+        ser_names = set()
+        for b in se:
+            for bb, t in b.calls():
+                tgt = call_target(t) or ""
+                if tgt.endswith(("serialize_field", "serialize_entry")):
+                    for i in range(len(t["args"])):
+                        k = const_of(arg_origin(ctx, b, bb, i))
+                        if k and isinstance(k[0], str):
+                            ser_names.add(k[0])
+        want = ser_names if (se and ser_names and len(ser_names) == len(fields)) else set(fields)
+        if name in FLATTENED:
+            if not req:
+                rr.ok("%s: flattened oneof wrapper" % name.split("::")[-1], nontrivial=False)
+            else:
+                rr.fail("flatten-shape:%s" % name.split("::")[-1], "`%s` is no longer a flattened wrapper (requires %s)" % (name, sorted(req)))
+            continue
+        if req == want:
+            rr.ok("%s: all %d fields required when parsing" % (name.split("::")[-1], len(fields)), sample={"rule": "WT4", "message": name, "required": sorted(req)})
+        else:
+            rr.fail("optional-fields:%s" % name.split("::", 1)[-1], "the deserialiser of `%s` requires %s but the message has %s: missing fields are silently defaulted, so a body of another shape parses as this message (untagged alternatives become ambiguous, `missing field` errors disappear)" % (name, sorted(req), sorted(want)))
+        if se and de_ad != se_ad:
+            rr.fail("adapter-mismatch:%s" % name.split("::", 1)[-1], "`%s` serialises through %s but parses through %s" % (name, sorted(se_ad), sorted(de_ad)))
+        elif se:
+            rr.ok("%s: adapters %s in both directions" % (name.split("::")[-1], sorted(x.split("::")[-1] for x in se_ad)), nontrivial=bool(se_ad))
+    if n < 11:
+        rr.fail("floor:wire-messages", "only %d wire messages with generated deserialisers found (11 confirmed)" % n)
+    return rr
